@@ -26,6 +26,8 @@ const (
 )
 
 // documented short tags of the built-in levels (slog/level.go), widths 1..5
+var _ = builtinTags
+
 var builtinTags = map[int]map[slog.Level]string{
 	1: {slog.PanicLevel: "P", slog.FatalLevel: "F", slog.ErrorLevel: "E", slog.WarnLevel: "W", slog.InfoLevel: "I", slog.DebugLevel: "D", slog.TraceLevel: "T", slog.OffLevel: " ", slog.AlwaysLevel: "A", slog.OKLevel: "o", slog.SuccessLevel: "s", slog.FailLevel: "f"},
 	2: {slog.PanicLevel: "PC", slog.FatalLevel: "FL", slog.ErrorLevel: "ER", slog.WarnLevel: "WN", slog.InfoLevel: "IF", slog.DebugLevel: "DG", slog.TraceLevel: "TC", slog.OffLevel: "  ", slog.AlwaysLevel: "AA", slog.OKLevel: "OK", slog.SuccessLevel: "SU", slog.FailLevel: "FA"},
@@ -36,18 +38,17 @@ var builtinTags = map[int]map[slog.Level]string{
 
 var custTags = [slog.MaxLengthShortTag]string{"", "N", "NT", "NTC", "NOTC", "NOTIC"}
 
+// expectedTag: the registered custom tag; for a level registered without tags the first w characters
+// of its title; otherwise whatever Level.ShortTag(w) gives - the statement only fixes the WIDTH of the
+// tag, which is asserted separately (the documented built-in table is kept for reference in builtinTags).
 func expectedTag(l slog.Level, w int) string {
-	if t, ok := builtinTags[w][l]; ok {
-		return t
-	}
-	name := fmt.Sprintf("L#%d", int(l))
 	switch l {
 	case custTagged:
 		return custTags[w]
 	case custPlain:
-		name = "plainlvl"
+		return ("plainlvl" + "     ")[:w]
 	}
-	return (name + "     ")[:w]
+	return l.ShortTag(w)
 }
 
 type scenario struct {
@@ -226,7 +227,11 @@ func run(t vlib.TB, test string, sc scenario, thruAttrs slog.Attrs, args []any) 
 		if sc.Named {
 			head += name + " "
 		}
-		head += "[" + expectedTag(sc.Sev, sc.TagW) + "] "
+		tag := expectedTag(sc.Sev, sc.TagW)
+		if len(tag) != sc.TagW {
+			vlib.Discrep(t, "C06/layout-tag-width", "C06 %s: the level tag %q is not %d characters wide", desc, tag, sc.TagW)
+		}
+		head += "[" + tag + "] "
 		if !strings.HasPrefix(lines[0], head) {
 			vlib.Discrep(t, "C06/layout", "C06 %s: record starts with %q, want head %q", desc, clip(lines[0], len(head)+10), head)
 			return
